@@ -69,7 +69,7 @@ func next(tag, kind string) NondetValue {
 		if v.Tag == tag {
 			return v
 		}
-		if strings.HasPrefix(v.Tag, "time.Now") {
+		if strings.HasPrefix(v.Tag, "time.Now") || v.Tag == "addr" {
 			continue // clock readings are not replayed natively
 		}
 		panic(AssumeFailed{fmt.Sprintf("replay diverged: want tag %q, recorded %q", tag, v.Tag)})
